@@ -9,4 +9,5 @@ git -C /repo worktree add --detach -q /tmp/bld/$X-repo HEAD
 cd /tmp/bld/$X
 sed -i "s#=> /repo#=> /tmp/bld/$X-repo#" harness/go.mod
 sed -i "s#/repo/go.sum#/tmp/bld/$X-repo/go.sum#" check setup.sh
+sed -i "s#^set -u#set -u\nexport VERIF_SERIALIZE_THOROUGH=1#" check
 git rev-parse --short HEAD
